@@ -16,5 +16,20 @@ CHECKS = {
         "note": "Trusted: the row-set model in mc/props/C08.py (lists of tuples), numpy. Lists of at most 12 rows; NaN == 0.0 for payload comparison; operations on a feature column with a missing value are not enabled.",
         "technique": "explicit-state BFS with canonical state hashing over the implementation, lock-step reference model",
     },
+    "C11": {
+        "text": "Complete enumeration of shapes {1,2,3,5}^3 (thorough {1,2,3,5,7,48}^3) x 4 dtypes x mrc/rec/em x data_type x transpose; every file is parsed by an independent byte-level MRC/EM parser (header dims, mode, x-fastest offsets) and re-read; files written by the independent writers are read by cryoCAT; em2mrc/mrc2em over directions x invert x names x overwrite situations.",
+        "note": "Trusted: mc/oracles/mrcfmt.py and emfmt.py (written from the format descriptions). Voxel codes are injective per shape; sizes above 48 are not explored.",
+        "technique": "bounded-exhaustive small-scope enumeration of configurations on the implementation with independent byte-level oracles",
+    },
+    "C15": {
+        "text": "Depth 1: every operation argument (all orderings, all proper index subsets, every crop size, every bin factor, every flip list) x stack sizes x dtypes x 16 order/input/output variants, judged against plain numpy indexing; depth 2 (quick) / 3 (thorough): every enabled operation sequence chained through the written MRC files; written files parsed independently.",
+        "note": "Trusted: numpy indexing reference, mc/oracles/mrcfmt.py. Stacks of 2..6 tilts (one 25-tilt stack in thorough); flip letters judged only up to the x/y naming convention.",
+        "technique": "bounded-exhaustive enumeration of operation arguments and of operation sequences through files on the implementation",
+    },
+    "C16": {
+        "text": "Every lattice frequency of every image size {4..7}^2 as a cosine and a sine plane wave x pixel sizes x cyclic dose assignments x order variants is filtered by the real code and compared with the Grant-Grigorieff gain computed independently; full-DFT comparison on stacks of 1..10 images; linearity, composition and monotonicity on dose pairs; single-image inputs.",
+        "note": "Trusted: mc/oracles/fourier.py (the documented formula), numpy FFT. int16 stacks excluded; sizes above 9 only on three elongated shapes in the thorough tier.",
+        "technique": "bounded-exhaustive enumeration of the Fourier basis and configurations on the implementation against an independent gain table",
+    },
 }
 NOT_APPLICABLE = {}
